@@ -457,12 +457,19 @@ fn pretty_print_rustfmt(tokens: TokenStream) -> String {
         .stderr(Stdio::null())
         .spawn()
     {
-        let stdin = proc.stdin.as_mut().unwrap();
-        stdin.write_all(value.as_bytes()).unwrap();
+        // rustfmt may exit without reading its input, so don't panic on a broken pipe.
+        let written = match proc.stdin.as_mut() {
+            Some(stdin) => stdin.write_all(value.as_bytes()).is_ok(),
+            None => false,
+        };
 
-        let output = proc.wait_with_output().unwrap();
-        if output.status.success() {
-            return String::from_utf8(output.stdout).unwrap();
+        // Fall back to the unformatted tokens unless rustfmt produced the formatted code.
+        if let Ok(output) = proc.wait_with_output() {
+            if written && output.status.success() && !output.stdout.is_empty() {
+                if let Ok(formatted) = String::from_utf8(output.stdout) {
+                    return formatted;
+                }
+            }
         }
     }
     value.to_string()
